@@ -29,6 +29,7 @@ type trAlias struct {
 	field    string // field of the container that is the map
 	key      string // Lean name of the key value
 	tree     bool     // trans_tree.go: the alias points to the node of the tree `root` at the path `key`
+	slice    bool     // trans_units_tablerender.go: the alias points to the element `key` of the slice field `field`
 	root     ast.Expr // the expression the tree hangs on (a variable or a field path)
 }
 
@@ -189,6 +190,9 @@ func (c *trCtx) writeBack(lhs ast.Expr, k trK) trK {
 	al := c.aliases[o]
 	if al == nil {
 		return k
+	}
+	if al.slice {
+		return c.sliceWriteBack(al, o, k) // (trans_units_tablerender.go)
 	}
 	if al.tree {
 		return func() trLines {
